@@ -22,3 +22,11 @@ META['C12'] = dict(
                'and one live iterator are enumerated to the fixpoint of the (monitor state, last-k-ops) key; after every transition the whole container is compared with the '
                'array monitor (order, length, destructor log) and four probe suffixes check that the container keeps working (drain, clear+reuse, remove-all pass, free + allocator audit).',
     level_note='Bounded element count; iterator semantics = cursor position in the array (as the repository tests use it); external mutation during iteration not generated.')
+
+META['C11'] = dict(
+    engine='seqx-inproc', design_ref='6/C11',
+    technique='explicit-state BFS over operation histories on the real m_bst_* code, tree shape in the state key, sorted-set reference monitor, probe suffixes',
+    level_text='All histories of insert/remove/iterator/clear over 5 (thorough: 7) keys are enumerated (all insertion orders yielding distinct trees, every removal and iterator-removal position), '
+               'with user comparator (including equal-but-distinct objects) and default pointer comparator (pointers more than 2^31 and 2^32 apart), with and without destructor. '
+               'After every operation the complete observable state is compared with a sorted-set monitor.',
+    level_note='Bounded key count; comparator order for pointers checked on a fixed adversarial menu of 8 values.')
